@@ -113,6 +113,36 @@ theorem oout_eq_boundaries (P O : Axis) (A B s v : Int) (hs : 0 < s) (hv : 0 ≤
   push_cast
   rfl
 
+/-- **Same ground, output windows**: every boundary of the other image's output windows lies within half a pixel (of the other
+    grid) of the processing boundary it was rounded from, on the ground - on either axis, whatever the pixel sizes (the predicate
+    the check evaluates on the real windows; a boundary computed with the wrong axis' pixel size violates it) -/
+theorem other_boundary_within_half_pixel (P O : Axis) (A B s : Int) (hO : 0 < O.p) (k : Nat) :
+    2 * (O.edge (otherBoundary P O A B s k) - P.edge (min (A + k * s) B)) ≤ O.p ∧
+      -O.p ≤ 2 * (O.edge (otherBoundary P O A B s k) - P.edge (min (A + k * s) B)) := by
+  unfold otherBoundary toOther Axis.edge
+  -- `rhe a d` is a nearest integer to `a / d`
+  have key : ∀ a d : Int, 0 < d → 2 * (rhe a d * d - a) ≤ d ∧ -d ≤ 2 * (rhe a d * d - a) := by
+    intro a d hd
+    have h1 := Int.emod_nonneg a (ne_of_gt hd)
+    have h2 := Int.emod_lt_of_pos a hd
+    have h3 := Int.mul_ediv_add_emod a d
+    unfold rhe
+    simp only
+    have e : a / d * d = d * (a / d) := Int.mul_comm _ _
+    split
+    · constructor <;> omega
+    · split
+      · have : (a / d + 1) * d = d * (a / d) + d := by rw [Int.add_mul, Int.one_mul, e]
+        constructor <;> omega
+      · split
+        · constructor <;> omega
+        · have : (a / d + 1) * d = d * (a / d) + d := by rw [Int.add_mul, Int.one_mul, e]
+          constructor <;> omega
+  have := key (P.o + min (A + (k : Int) * s) B * P.p - O.o) O.p hO
+  constructor <;> omega
+
+example : otherBoundary ⟨0, 3, 10⟩ ⟨1, 2, 20⟩ 0 10 4 1 = 6 := by decide
+
 /-- **Other-grid partition**: the rounded output windows on the other grid partition
     `[round(A), round(B))` - every pixel in exactly one block - because both neighbours derive a shared boundary
     by the same monotone function of the same integer corner. -/
